@@ -44,10 +44,7 @@ Theorem chunking_independent : forall D cap cs cs',
   concat cs = concat cs' ->
   obs (decompress D cap cs) = obs (decompress D cap cs') /\
   visible (decompress D cap cs) = visible (decompress D cap cs').
-Proof.
-  intros D cap cs cs' H. split;
-  [exact (chunking_independent_lemma D cap cs cs' H)|exact (chunking_independent_visible_lemma D cap cs cs' H)].
-Qed.
+Proof. exact chunking_independent_both_lemma. Qed.
 Print Assumptions chunking_independent.
 
 (* The `while len(block)` loop terminates within its fuel: any larger fuel gives the same result. *)
